@@ -276,13 +276,24 @@ impl Epoch {
                     prime_epoch_offset + delta_tdb_tai - ts.prime_epoch_offset()
                 }
                 TimeScale::UTC => {
-                    // Assume it's TAI
-                    let epoch = Self {
-                        duration: prime_epoch_offset,
-                        time_scale: TimeScale::TAI,
-                    };
                     // TAI = UTC + leap_seconds <=> UTC = TAI - leap_seconds
-                    prime_epoch_offset - epoch.leap_seconds(true).unwrap_or(0.0).seconds()
+                    // The leap second table is indexed by UTC: a leap second comes into force in TAI once the
+                    // TAI clock reaches its insertion time plus the leap seconds accumulated before it.
+                    let mut utc = prime_epoch_offset;
+                    let mut iter = LatestLeapSeconds::default()
+                        .rev()
+                        .filter(|leap_second| leap_second.announced_by_iers)
+                        .peekable();
+                    while let Some(leap_second) = iter.next() {
+                        let prev_delta_at = iter.peek().map_or(0.0, |prev| prev.delta_at);
+                        if prime_epoch_offset
+                            >= (leap_second.timestamp_tai_s + prev_delta_at) * Unit::Second
+                        {
+                            utc = prime_epoch_offset - leap_second.delta_at * Unit::Second;
+                            break;
+                        }
+                    }
+                    utc
                 }
                 TimeScale::GPST => prime_epoch_offset - GPST_REF_EPOCH.to_tai_duration(),
                 TimeScale::GST => prime_epoch_offset - GST_REF_EPOCH.to_tai_duration(),
